@@ -47,6 +47,12 @@ def replay_path_batch(case):
             seen.add(path)
             chans.append((names, path))
     if chans:
+        # names longer than 255 bytes (one of them in multi-byte characters)
+        for g_, c_ in (("G" * 256, "c" * 300), ("x", "\u00e9" * 200), ("y" * 70000, "z")):
+            pth = "/'" + g_ + "'/'" + c_ + "'"
+            if pth not in seen:
+                seen.add(pth)
+                chans.append(([g_, c_], pth))
         buf = io.BytesIO()
         groups_only = [(names, path) for names, path in items if len(names) == 1]
         try:
